@@ -34,6 +34,8 @@ type AddRec struct {
 	Diags    []string
 	RanFault bool // a faulted peer call ran on this task during this call
 	Calls    int  // peer calls made during this call
+	FirstAcq int  // event sequence number of the call's first acquisition of the builder mutex (0: none)
+	LastUnl  int  // ... and of its last release
 }
 
 type vresult struct {
@@ -59,10 +61,14 @@ func installHooks() {
 		BeforeLock: func(m interface{}) {
 			if r := cur; r != nil && r.sched != nil && r.inTasks {
 				r.sched.BeforeLock(m)
+				if id := r.sched.Cur().ID; r.lockFirst[id] == 0 {
+					r.lockFirst[id] = r.log.Steps
+				}
 			}
 		},
 		AfterUnlock: func(m interface{}) {
 			if r := cur; r != nil && r.sched != nil && r.inTasks {
+				r.lockLast[r.sched.Cur().ID] = r.log.Steps + 1
 				r.sched.AfterUnlock(m)
 			}
 		},
@@ -76,6 +82,7 @@ func buildArena(sc *bw.Scenario) error {
 		}
 	}
 	os.WriteFile("/w/victim", []byte("OUT-victim"), 0o644)
+	os.WriteFile("/w/outside-rules", []byte(".terraformignore\nh-*\n"), 0o644)
 	os.WriteFile("/w/SIBLING/main.tf", []byte("OUT-sibling"), 0o644)
 	os.WriteFile("/etc/shadow", []byte("OUT-shadow"), 0o644)
 	os.WriteFile("/cwd/keep", []byte("OUT-cwd"), 0o644)
@@ -203,7 +210,7 @@ func Run(sc *bw.Scenario) *simkit.Outcome {
 func runVariant(sc *bw.Scenario, book *simkit.TapeBook, vi int, w *world, pkgAddr []sourceaddrs.RemotePackage, regAddrs []regaddr.ModulePackage, target string, log *simkit.Log, out *simkit.Outcome, states map[string]bool) *vresult {
 	va := &sc.Variants[vi]
 	r := &vrun{sc: sc, va: va, vi: vi, w: w, log: log, out: out, target: target, siteN: map[string]int{}, cancels: map[int]context.CancelFunc{},
-		pkgAddr: pkgAddr, regAddr: regAddrs, diagsSeen: map[string][]string{}, tmpDirs: map[string]bool{}, faultsFired: map[string]int{}}
+		pkgAddr: pkgAddr, regAddr: regAddrs, diagsSeen: map[string][]string{}, tmpDirs: map[string]bool{}, faultsFired: map[string]int{}, lockFirst: map[int]int{}, lockLast: map[int]int{}}
 	for _, p := range sc.Post {
 		if p == "crash-probe" {
 			r.probe = true
@@ -270,6 +277,7 @@ func runVariant(sc *bw.Scenario, book *simkit.TapeBook, vi int, w *world, pkgAdd
 				rec.Invoke = log.Steps + 1
 				log.Add(tk.ID, "op-start", fmt.Sprintf("add %s %s", a.Kind, a.Addr))
 				callsBefore := len(r.calls)
+				r.lockFirst[tk.ID], r.lockLast[tk.ID] = 0, 0
 				func() {
 					defer func() {
 						if x := recover(); x != nil {
@@ -285,7 +293,7 @@ func runVariant(sc *bw.Scenario, book *simkit.TapeBook, vi int, w *world, pkgAdd
 					fd := finderByName(a.Finder)
 					switch a.Kind {
 					case "remote":
-						addr, err := sourceaddrs.ParseRemoteSource(a.Addr)
+						addr, err := parseRemoteMaybeMade(a.Addr)
 						if err != nil {
 							rec.Panic = "harness: unparsable add address: " + err.Error()
 							return
@@ -324,6 +332,7 @@ func runVariant(sc *bw.Scenario, book *simkit.TapeBook, vi int, w *world, pkgAdd
 				}
 				log.Add(tk.ID, "op-end", fmt.Sprintf("add err=%v refused=%v", rec.HasErr, rec.Refused))
 				rec.Return = log.Steps
+				rec.FirstAcq, rec.LastUnl = r.lockFirst[tk.ID], r.lockLast[tk.ID]
 				res.adds = append(res.adds, rec)
 				if rec.HasErr {
 					res.anyErr = true
